@@ -529,8 +529,11 @@ def _interpolate_params(
             capabilities, client_charset, reader, parameter_count, stmt.param_buffers
         )
 
-        for _, value in params[: stmt.num_params]:
-            sql = REGEX_PARAM.sub(_encode_param_as_sql(value), sql, 1)
+        # Substitute all placeholders of the original text in a single pass, with a
+        # function as replacement: values are neither scanned for placeholders
+        # nor interpreted as regex replacement templates.
+        values = iter([value for _, value in params[: stmt.num_params]])
+        sql = REGEX_PARAM.sub(lambda _: _encode_param_as_sql(next(values)), sql)
 
         query_attrs = {k: v for k, v in params[stmt.num_params :] if k is not None}
 
@@ -539,7 +542,8 @@ def _interpolate_params(
 
 def _encode_param_as_sql(param: Any) -> str:
     if isinstance(param, str):
-        return f"'{param}'"
+        escaped = param.replace("\\", "\\\\").replace("'", "''")
+        return f"'{escaped}'"
     if param is None:
         return "NULL"
     if param is True:
